@@ -198,6 +198,31 @@ def _compress(kind, payload):
         if lib.ZSTD_isError(n):
             raise RefError("ZSTD compression failed")
         return dst.raw[:n]
+    if kind == "zstd-nosize":
+        # one frame whose header omits the optional Frame_Content_Size field (what streaming encoders that are not
+        # told the input size up front produce): still "a ZSTD frame following the magic number"
+        lib = _zstd()
+        lib.ZSTD_createCCtx.restype = ctypes.c_void_p
+        lib.ZSTD_freeCCtx.argtypes = [ctypes.c_void_p]
+        lib.ZSTD_CCtx_setParameter.argtypes = [ctypes.c_void_p, ctypes.c_int, ctypes.c_int]
+        lib.ZSTD_CCtx_setParameter.restype = ctypes.c_size_t
+        lib.ZSTD_compress2.argtypes = [ctypes.c_void_p, ctypes.c_char_p, ctypes.c_size_t, ctypes.c_char_p, ctypes.c_size_t]
+        lib.ZSTD_compress2.restype = ctypes.c_size_t
+        cctx = lib.ZSTD_createCCtx()
+        try:
+            if lib.ZSTD_isError(lib.ZSTD_CCtx_setParameter(cctx, 200, 0)):  # ZSTD_c_contentSizeFlag
+                raise RefError("ZSTD: cannot clear the content size flag")
+            cap = lib.ZSTD_compressBound(len(payload)) + 16
+            dst = ctypes.create_string_buffer(cap)
+            n = lib.ZSTD_compress2(cctx, dst, cap, payload, len(payload))
+            if lib.ZSTD_isError(n):
+                raise RefError("ZSTD compression failed")
+            out = dst.raw[:n]
+        finally:
+            lib.ZSTD_freeCCtx(cctx)
+        if lib.ZSTD_getFrameContentSize(out, len(out)) != 0xFFFFFFFFFFFFFFFF:  # ZSTD_CONTENTSIZE_UNKNOWN
+            raise RefError("ZSTD: frame still carries a content size")
+        return out
     raise RefError("unknown compression %r" % (kind,))
 
 
@@ -1290,7 +1315,7 @@ def _enc_chunk(ch, v, update=False):
     if len(name) != 4:
         raise RefError("chunk name %r is not 4 bytes" % (ch["name"],))
     payload = _enc_body(ch, v)
-    wire = bytes.fromhex(ch["raw_payload"]) if "raw_payload" in ch else _compress(ch.get("compression", "none"), payload)
+    wire = bytes.fromhex(ch["raw_payload"]) if "raw_payload" in ch else _compress("zstd-nosize" if ch.get("compression") == "zstd" and ch.get("zstd_form") == "nosize" else ch.get("compression", "none"), payload)
     if ch.get("raw_header"):
         clen, ulen, reserved = ch["compressed_len"], ch["len"], ch["reserved"]
     else:
